@@ -366,4 +366,112 @@ def run(tier):
                                  file=fn.relfile, line=t["ln"])
                 res.instance("C10.R4", "%s:%s case %d -> %s" % (fn.name, t["ln"], val, sorted(fams)), not wrong, finding=f_)
     res.floor("C10.R4", 4)
+
+    # ------------------------------------------------------------------ R5
+    res.rule("C10.R5", "HelloRetryRequest transcript (RFC 8446 4.4.1): the synthetic message is message_hash(254) || 00 00 Hash.length || Hash(ClientHello1)")
+    n5 = 0
+    for fn in sorted(prog.functions.values(), key=lambda f: f.qname):
+        if not fn.relfile.startswith("matrixssl/"):
+            continue
+        copies = []       # (block id, line, array var id, length)
+        for b in fn.blocks:
+            for i, ln, x in cu.block_exprs(b):
+                for n in walk(x):
+                    if n.get("k") == "call" and n.get("fn") in ("memcpy", "__builtin_memcpy", "__builtin___memcpy_chk") and len(n.get("a", [])) >= 3:
+                        d = strip(n["a"][0])
+                        src = strip(n["a"][1])
+                        L = strip(n["a"][2])
+                        if d is not None and d.get("k") == "bin" and d["op"] == "+" and (strip(d["r"]) or {}).get("k") == "int" \
+                                and strip(d["r"])["v"] == 4 and (strip(d["l"]) or {}).get("k") == "var" and L is not None and L.get("k") == "int" \
+                                and src is not None and src.get("k") == "mem" and "TrHashSnapshotCH1" in src.get("f", ""):
+                            copies.append((b["id"], n.get("ln", ln), strip(d["l"])["id"], L["v"]))
+        if not copies:
+            continue
+        dom = cu.dominators(fn)
+        stores = {}       # (array id, index) -> [(block id, value or None)]
+        for b in fn.blocks:
+            for i, ln, x in cu.block_exprs(b):
+                for n in walk(x):
+                    if n.get("k") == "bin" and n["op"] == "=":
+                        l = strip(n["l"])
+                        if l is not None and l.get("k") == "idx" and (strip(l["b"]) or {}).get("k") == "var" and (strip(l["i"]) or {}).get("k") == "int":
+                            r = strip(n["r"])
+                            while r is not None and r.get("k") == "bin" and r["op"] == "=":
+                                r = strip(r["r"])          # a[1] = a[2] = 0
+                            stores.setdefault((strip(l["b"])["id"], strip(l["i"])["v"]), []).append(
+                                (b["id"], r["v"] if r is not None and r.get("k") == "int" else None))
+        for (bid, ln, aid, length) in copies:
+            n5 += 1
+            problems = []
+            t0 = [v for (sb, v) in stores.get((aid, 0), []) if sb in dom.get(bid, ())]
+            if t0 != [254]:
+                problems.append("handshake type byte is %s, RFC 8446 says message_hash(254)" % t0)
+            for ix in (1, 2):
+                tv = [v for (sb, v) in stores.get((aid, ix), []) if sb in dom.get(bid, ())]
+                if tv and tv != [0]:
+                    problems.append("length byte %d is %s, expected 0" % (ix, tv))
+            t3 = [v for (sb, v) in stores.get((aid, 3), []) if sb in dom.get(bid, ()) or sb == bid]
+            reach_ = set()
+            st_ = list(cu.succs(fn, bid))
+            while st_:
+                x_ = st_.pop()
+                if x_ in reach_:
+                    continue
+                reach_.add(x_)
+                st_.extend(cu.succs(fn, x_))
+            later = [v for (sb, v) in stores.get((aid, 3), []) if sb in reach_ and sb != bid]
+            if t3 != [length] or later:
+                problems.append("Hash.length byte is %s%s while %d bytes of Hash(ClientHello1) follow" % (
+                    t3 if t3 else "not a constant set next to the copy", " and is overwritten later" if later else "", length))
+            if length not in (32, 48):
+                problems.append("%d is not the output length of SHA-256 / SHA-384" % length)
+            f_ = None
+            if problems:
+                f_ = Finding(PROP, "C10.R5", fn.name, "message_hash header for a %d-byte hash" % length,
+                             "%s:%s %s(): %s" % (fn.relfile, ln, fn.name, "; ".join(problems)), file=fn.relfile, line=ln)
+            res.instance("C10.R5", "%s:%s message_hash || 00 00 %d || Hash(CH1)" % (fn.name, ln, length), not problems, finding=f_)
+    res.floor("C10.R5", 2)
+    # the hash of that transcript is the hash of the suite named by the HelloRetryRequest: the client has taken the
+    # suite into use on every path on which its ServerHello parser reports a HelloRetryRequest to the caller
+    psh = prog.fn("tls13ParseServerHello")
+    ENC = prog.const("SSL_ENCODE_RESPONSE")
+    marks = cu.find_sites(psh, lambda n: n.get("k") == "bin" and n["op"] == "=" and (strip(n["l"]) or {}).get("f") == "tls13IncorrectDheKeyShare"
+                          and (strip(n["r"]) or {}).get("k") == "int" and strip(n["r"])["v"] != 0)
+    if not marks:
+        raise AnalysisBroken("C10.R5: tls13ParseServerHello no longer marks a HelloRetryRequest (tls13IncorrectDheKeyShare)")
+
+    def sets_cipher(x):
+        return any(n.get("k") == "bin" and n["op"] == "=" and (strip(n["l"]) or {}).get("k") == "mem"
+                   and (strip(n["l"]) or {}).get("f") == "cipher" and (strip(n["l"]) or {}).get("r") == "ssl" for n in walk(x))
+
+    def not_hrr_edge(b, k):
+        t = b.get("term")
+        if t is None or "c" not in t or len(b["succ"]) != 2:
+            return False
+        for (txt, tr, nd) in cu._cond_atoms(t["c"], k == 0):
+            if txt == "(rc == %d)" % ENC and not tr:
+                return True
+            if txt == "ssl->tls13IncorrectDheKeyShare" and not tr:
+                return True
+        return False
+
+    def hrr_return(x):
+        e = strip(x.get("e")) if x.get("e") is not None else None
+        if e is None:
+            return False
+        if e.get("k") == "int":
+            return e["v"] == ENC
+        if e.get("k") == "un" and e["op"] == "-":
+            return False
+        return e.get("k") == "var"          # `return rc` - may carry SSL_ENCODE_RESPONSE
+    for (bid, idx, ln, node) in marks:
+        path = cu.escapes(psh, (bid, idx), sets_cipher, exempt_edge=not_hrr_edge, is_target=hrr_return)
+        f_ = None
+        if path is not None:
+            f_ = Finding(PROP, "C10.R5", psh.name, "HelloRetryRequest reported before ssl->cipher is assigned",
+                         "tls13ParseServerHello marks a HelloRetryRequest at line %s and can return to the caller (line %s) without having "
+                         "assigned ssl->cipher: tls13TranscriptHashReinit then hashes ClientHello1 with the default SHA-256 although the "
+                         "suite may be a SHA-384 suite (RFC 8446 4.4.1)" % (ln, path[-1][1]), file=psh.relfile, line=path[-1][1])
+        res.instance("C10.R5", "tls13ParseServerHello: HelloRetryRequest (line %s) -> ssl->cipher assigned before it is reported" % ln,
+                     path is None, finding=f_)
     return res.finish()
